@@ -22,7 +22,8 @@ Traces == ndJsonDeserialize("fmt_traces.ndjson")
 VARIABLES run, pc, fs, open, status, faults, nsteps, last
 vars == <<run, pc, fs, open, status, faults, nsteps, last>>
 
-M == INSTANCE FmtCrash WITH Progs <- Traces, MaxFaults <- 0, ModeSet <- {}, FormSet <- {}
+\* the harness runs the binary with umask 022 (= 18)
+M == INSTANCE FmtCrash WITH Progs <- Traces, MaxFaults <- 0, Umask <- 18, ModeSet <- {}, FormSet <- {}
 
 Init == M!Init
 \* IsEvent /\ bind /\ SpecAction: M!StepOk is enabled only if the recorded outcome is "ok" and the
@@ -32,13 +33,13 @@ Spec == Init /\ [][Next]_vars
 
 TypeOK == M!TypeOK
 
-St(p) == IF fs[p] = M!Absent THEN "absent" ELSE fs[p].c
+St(p) == IF M!Seen(p) = M!Absent THEN "absent" ELSE M!Seen(p).c     \* what is seen through the path
 Export ==
   PrintT(<<"CASE", ToJson(
     [kind |-> "state", id |-> M!P.id, t |-> run, k |-> nsteps, len |-> Len(M!P.steps), status |-> status,
-     target |-> St("target"), tmode |-> fs["target"].m,
+     target |-> St("target"), tmode |-> M!Seen("target").m, tlink |-> (fs["target"].ln # ""),
      moved |-> St("moved"), mmode |-> fs["moved"].m,
-     tmp |-> St("tmp"), tmpx |-> St("tmpx"),
+     tmp |-> St("tmp"), tmpx |-> St("tmpx"), real |-> St("real"), rmode |-> fs["real"].m,
      durable |-> M!Durable, modeKept |-> M!ModeKept, mvModeKept |-> M!MvModeKept,
      sc |-> M!P.sc, inject |-> M!P.inject])>>)
 =============================================================================
